@@ -278,7 +278,6 @@ def impl_vrp(case):
             out["final_obj"] = out["final"][3]
             out["dist"] = first._dist
         else:
-            live = []
             res = V.solve_vrptw(custs, veh, tuple(case["depot"]), max_iter=case["max_iter"],
                                 max_no_improve=case["max_no_improve"], seed=case["seed"], **kw,
                                 **{k: v for k, v in W.items() if k != "unassigned_penalty"})
@@ -290,16 +289,18 @@ def impl_vrp(case):
             # direct calls of the exported operators on states the search went through
             n_solver = len(steps)
             out["n_solver_steps"] = n_solver
-            if n_solver:
-                for frac, c in case.get("direct", []):
-                    src = steps[int(frac * n_solver) % n_solver]
-                    base = V.VRPState.from_problem(st.customers, st.vehicles)
-                    pre = src[3] if (c["op"] in REPAIR) == (src[1] == 0) or frac < 0.5 else src[2]
-                    base.routes = [list(r) for r in pre[0]]
-                    base.unassigned = set(pre[1])
-                    base.arrival_times = [list(a) for a in pre[2]]
-                    call(base, c)
-            del live
+            partial = [s[3] for s in steps if s[1] == 0] or [s[2] for s in steps]
+            complete = [s[3] for s in steps if s[1] == 1]
+            for frac, c in case.get("direct", []):
+                pool = partial if c["op"] in REPAIR else complete
+                if not pool:
+                    continue
+                pre = pool[int(frac * len(pool)) % len(pool)]
+                base = V.VRPState.from_problem(st.customers, st.vehicles)
+                base.routes = [list(r) for r in pre[0]]
+                base.unassigned = set(pre[1])
+                base.arrival_times = [list(a) for a in pre[2]]
+                call(base, c)
     finally:
         for name, fn in orig.items():
             setattr(V, name, fn)
@@ -335,6 +336,7 @@ def vrp_request(case, out):
     steps = [[st[1], sid(st[2]), sid(st[3])] for st in out["steps"]]
     fin = out["final"]
     final_id = sid([fin[0], fin[1], fin[2], out["final_obj"]])
+    ids = [(st[1], st[2]) for st in steps]
     veh = case["vehicles"]
     if isinstance(veh, int):
         caps = [None if case.get("vehicle_capacity") is None else rat(case["vehicle_capacity"])] * veh
@@ -345,7 +347,7 @@ def vrp_request(case, out):
            [rat(0)] + [rat(c[3]) for c in cs], [rat(0)] + [rat(c[4]) for c in cs],
            [None] + [None if c[5] is None else rat(c[5]) for c in cs], [rat(0)] + [rat(c[6]) for c in cs],
            caps, [rat(W[k]) if k in W else None for k in WKEYS], TOL, states, steps]
-    return req, final_id
+    return req, ids, final_id
 
 
 # ---------------------------------------------------------------------------
@@ -402,7 +404,7 @@ def judge_js(ctx, case, o, reply):
                                      "schedules_checked": len(out["scheds"])})
 
 
-def judge_vrp(ctx, case, o, reply, final_id):
+def judge_vrp(ctx, case, o, reply, ids, final_id):
     top = "solve_vrptw" if "script" not in case else "operator_script"
     rep = {"case": case}
     if o[0] != "ok":
@@ -441,21 +443,8 @@ def judge_vrp(ctx, case, o, reply, final_id):
                  f"{float(core.unrat(exact))!r} of this state by more than 1e-6", {"state": st, "exact": exact})
         return ok
 
-    table = {}
     removed = inserted = 0
     reqs_steps = out["steps"]
-    # state ids were assigned in the same order by vrp_request
-    ids = []
-    nxt = [0]
-
-    def sid(s):
-        key = json.dumps(s)
-        if key not in table:
-            table[key] = nxt[0]
-            nxt[0] += 1
-        return table[key]
-    for st in reqs_steps:
-        ids.append((sid(st[2]), sid(st[3])))
     for i, (st, (pi, qi), ref) in enumerate(zip(reqs_steps, ids, tv)):
         name, kind, pre, post = st
         if isinstance(ref, str):
@@ -498,11 +487,11 @@ def run_cases(ctx, cases):
             continue
         if c["kind"] == "js":
             reqs.append(js_request(c, o[1]))
-            meta.append((len(reqs) - 1, None))
+            meta.append((len(reqs) - 1, None, None))
         else:
-            r, fid = vrp_request(c, o[1])
+            r, ids, fid = vrp_request(c, o[1])
             reqs.append(r)
-            meta.append((len(reqs) - 1, fid))
+            meta.append((len(reqs) - 1, ids, fid))
     replies = Driver("Sched").run(reqs, chunks=16)
     for c, o, m in zip(cases, outs, meta):
         rp = replies[m[0]] if m else None
@@ -511,7 +500,7 @@ def run_cases(ctx, cases):
         if c["kind"] == "js":
             judge_js(ctx, c, o, rp)
         else:
-            judge_vrp(ctx, c, o, rp, m[1] if m else None)
+            judge_vrp(ctx, c, o, rp, m[1] if m else None, m[2] if m else None)
 
 
 def run(ctx, budget):
